@@ -43,7 +43,7 @@ def handle : Handler := fun op j =>
       | .error e => pure <| jObj [("ok", Json.bool false), ("err", Json.str e.toString)]
       | .ok h =>
         pure <| jObj [("ok", Json.bool true), ("nsites", jNat h.nsites), ("bond_dims", jList h.bondDims jNat),
-          ("wf", Json.bool h.wf),
+          ("wf", Json.bool (h.wf && h.dimsOk)),
           ("results", jList cases fun (i, u) =>
             jExcept ((gaugeTransform h u i).map fun r => [("v_l", jMatG r.1), ("v_r", jMatG r.2)]))]
   | _ => none
